@@ -95,62 +95,27 @@ Proof.
   - congruence.
 Qed.
 
-(* ---- frombase: the two paths ---- *)
-Theorem frombase_domain base : 2 <= base <= 36 ->
-  exists step : nat, (1 <= step <= 64)%nat /\ base ^ Z.of_nat step <= maxint /\
-    (* short strings go through tonumber(s, base): surrounding white space is accepted *)
-    (forall s, (length s < step)%nat -> (num_shape_ws base s <-> exists x, frombase s base = Ok x)) /\
-    (* longer strings are matched against '^([+-]?)(%w+)$': no white space anywhere *)
-    (forall s, (step <= length s)%nat -> (num_shape base s <-> exists x, frombase s base = Ok x)).
+(* ---- frombase (repaired: the fast path is guarded by ^[+-]?%w+$): both paths accept exactly sign? digits+ ---- *)
+Theorem frombase_uniform base : 2 <= base <= 36 ->
+  forall s, num_shape base s <-> exists x, frombase s base = Ok x.
 Proof.
-  intros Hb. destruct (frombase_step base Hb) as (step & E1 & E2 & Hst & Hmax). exists step.
-  split; [exact Hst|]. split; [exact Hmax|].
-  assert (U : forall s, frombase s base =
-            if (length s <? step)%nat
-            then match lua_tonumber_base s base with None => Err ENone | Some v => Ok (frominteger v) end
-            else match split_sign (map to_lower s) with
-                 | None => Err ENone
-                 | Some (sign, int) =>
-                     match fb_loop (S (length int)) int true step base bint_zero with
-                     | Err e => Err e
-                     | Ok n => Ok (if sign =? 45 then bunm n else n)
-                     end
-                 end).
-  { intros s. unfold frombase. destruct ((2 <=? base) && (base <=? 36)) eqn:Eb; [|lia]. cbn [negb]. rewrite E1, E2. reflexivity. }
-  split.
-  - intros s Hlen. rewrite U. destruct (Nat.ltb_spec (length s) step) as [_|]; [|lia]. split.
-    + intros (l & sg & cs & r & Es & Hl & Hr & Hsg & Hne & Hcs).
-      assert (Hl' : (length cs < step)%nat) by (rewrite Es, !app_length in Hlen; lia).
-      pose proof (dval_bound base (map cval cs) ltac:(lia) (chars_ok_digits _ _ Hcs)) as Hd. rewrite map_length in Hd.
-      assert (base ^ Z.of_nat (length cs) <= base ^ Z.of_nat step) by (apply Z.pow_le_mono_r; lia).
-      rewrite Es, (tonumber_ws_accept base l sg cs r ltac:(lia) Hl Hr Hsg Hne Hcs ltac:(lia)). eauto.
-    + intros (x & Hx). destruct (lua_tonumber_base s base) as [v|] eqn:Et; [|discriminate].
-      eapply tonumber_ws_inv; eauto.
-  - intros s Hlen. split.
-    + intros (sg & cs & Es & Hsg & Hne & Hcs). rewrite Es.
-      destruct (frombase_correct base sg cs Hb Hsg Hne Hcs) as (x & A & _). eauto.
-    + intros (x & Hx). rewrite U in Hx. destruct (Nat.ltb_spec (length s) step) as [|_]; [lia|].
-      (* if core_ok were false the chunked path would return nil *)
-      destruct (core_ok base s) eqn:Ec.
-      * destruct (core_ok_split base s Ec) as (sg & cs & A & B & C & D). exists sg, cs. auto.
-      * exfalso. pose proof (core_ok_lower base s) as Hl. rewrite Ec in Hl. set (t := map to_lower s) in *.
-        unfold split_sign in Hx. destruct t as [|c r] eqn:Et; [discriminate|]. cbn [core_ok] in Hl.
-        assert (Lt : (length s = length (c :: r))%nat) by (rewrite <- Et; subst t; symmetry; apply map_length).
-        destruct ((c =? 45) || (c =? 43)) eqn:Sg.
-        -- destruct r as [|c2 r2]; [discriminate|]. cbn [ProofsReject.nonempty andb] in Hl.
-           destruct (forallb is_alnum (c2 :: r2)) eqn:Al; [|discriminate].
-           rewrite (fb_loop_reject base step ltac:(lia) ltac:(lia) Hmax ltac:(change (2 ^ 63) with 9223372036854775808; lia)) in Hx; auto; discriminate.
-        -- destruct (forallb is_alnum (c :: r)) eqn:Al; [|discriminate].
-           rewrite (fb_loop_reject base step ltac:(lia) ltac:(lia) Hmax ltac:(change (2 ^ 63) with 9223372036854775808; lia)) in Hx; auto; discriminate.
+  intros Hb s. split.
+  - intros (sg & cs & Es & Hsg & Hne & Hcs). rewrite Es.
+    destruct (frombase_correct base sg cs Hb Hsg Hne Hcs) as (x & A & _). eauto.
+  - intros (x & Hx). destruct (frombase_accepts base s Hb) as (_ & R).
+    destruct (core_ok base s) eqn:Ec.
+    + destruct (core_ok_split base s Ec) as (sg & cs & A & B & C & D). exists sg, cs. auto.
+    + rewrite (R eq_refl) in Hx. discriminate Hx.
 Qed.
 
-(* the two paths disagree on surrounding white space: the same numeral " 1" is read when short and refused
-   when padded with zeros beyond the chunk length (white space is outside the documented domain
-   "only alphanumeric and '+-' characters"; the documented result for anything else is nil) *)
-Definition frombase_space_uniform : Prop := forall base s z, 2 <= base <= 36 -> spaces [z] ->
-  (exists x, frombase (z :: s) base = Ok x) -> forall k, exists x, frombase (z :: repeat 48 k ++ s) base = Ok x.
-Theorem frombase_space_uniform_refuted : ~ frombase_space_uniform.
+(* in particular no string with white space is accepted, whatever its length *)
+Corollary frombase_no_space base s c : 2 <= base <= 36 -> In c s -> is_space c = true -> frombase s base = Err ENone.
 Proof.
-  intros H. specialize (H 10 [49] 32 ltac:(lia) ltac:(constructor; [reflexivity | constructor])).
-  destruct (H ltac:(eexists; vm_compute; reflexivity) 30%nat) as (x & Hx). vm_compute in Hx. discriminate Hx.
+  intros Hb Hin Hsp. destruct (frombase_accepts base s Hb) as (_ & R). apply R.
+  destruct (core_ok base s) eqn:Ec; [exfalso | reflexivity].
+  destruct (core_ok_split base s Ec) as (sg & cs & E & Hsg & _ & Hcs). subst s.
+  destruct (space_not_alnum c Hsp) as (Na & N1 & N2).
+  apply in_app_or in Hin. destruct Hin as [Hi|Hi].
+  - destruct Hsg as [->|[->| ->]]; cbn in Hi; lia.
+  - rewrite Forall_forall in Hcs. destruct (Hcs c Hi) as (A & _). congruence.
 Qed.
